@@ -34,7 +34,16 @@ def parse(rel):
     return ast.parse(open(path).read(), filename=path)
 
 
+def _load_extractors():
+    import importlib
+    here = os.path.dirname(os.path.abspath(__file__))
+    for f in sorted(os.listdir(here)):
+        if f.startswith('translate_') and f.endswith('.py'):
+            importlib.import_module('harness.' + f[:-3])
+
+
 def regenerate_all():
+    _load_extractors()
     msgs = []
     ok = True
     for name, fn in EXTRACTORS:
